@@ -644,10 +644,10 @@ def _t_sort(c):
         kw["kind"] = c.choice(["stable", "quicksort", None]) if w == "sort" else "introselect"
     feats = {"fn": w, "ndim": nd, "axis_form": ["absent", "int_kw", "int_pos", "none_kw", "none_pos"][ak]}
     if w == "sort":
-        return Call("s:sort", lambda ns, x: ns.sort(x, *pos, **kw), [s], desc=["sort", list(s), ak, ax, kw.get("kind", "-")], feats=feats, cplx=False)
+        return Call("s:sort", lambda ns, x: ns.sort(x, *pos, **kw), [s], desc=["sort", list(s), ak, ax, kw.get("kind", "-")], feats=feats)
     n = int(onp.prod(s)) if ax is None else s[ax]
     k = c.int(-n, n - 1)
-    return Call("s:sort", lambda ns, x: ns.partition(x, k, *pos, **kw), [s], desc=["partition", list(s), k, ak, ax], feats=feats, cplx=False)
+    return Call("s:sort", lambda ns, x: ns.partition(x, k, *pos, **kw), [s], desc=["partition", list(s), k, ak, ax], feats=feats)
 
 
 @template("s:astype", "shape")
@@ -664,7 +664,7 @@ def _t_astype(c):
         fn = lambda ns, x: ns.ravel(x.astype(dt, "F"), order="A")
     else:
         fn = lambda ns, x: x.astype(dt)
-    return Call("s:astype", fn, [s], desc=["astype", list(s), dt, k], feats={"fn": "astype", "dtype": dt, "form": k}, cplx=False)
+    return Call("s:astype", fn, [s], desc=["astype", list(s), dt, k], feats={"fn": "astype", "dtype": dt, "form": k}, cplx=dt == "complex128")
 
 
 @template("s:getitem", "shape", weight=2)
